@@ -1684,3 +1684,118 @@ Proof.
   pose proof (filter_nonempty_lines lines Hall) as F. pose proof (split_join_lines lines Hall) as G.
   unfold bytes in *. rewrite F, map_map, G. reflexivity.
 Qed.
+
+(* the final line break of a table carries no data: with or without it the reader sees the same names and cells
+   (C18: a table whose last line is not terminated is a complete file; C13: files of producers that separate lines) *)
+Lemma split_go_final_sep sep : forall s cur, split_go sep cur (s ++ [sep]) = split_go sep cur s ++ [[]].
+Proof.
+  induction s as [|c r IH]; intros cur; cbn [app split_go].
+  - rewrite N.eqb_refl. reflexivity.
+  - destruct (c =? sep); [rewrite IH; reflexivity|apply IH].
+Qed.
+
+Theorem read_table_final_newline s : read_table (s ++ [newline]) = read_table s.
+Proof.
+  unfold read_table, split. rewrite split_go_final_sep, filter_app. cbn [filter nonempty]. rewrite app_nil_r. reflexivity.
+Qed.
+
+(* the table written by _write_table, with its final line break removed, reads back as the same table *)
+Corollary csv_roundtrip_without_final_newline names rows :
+  names <> [] -> Forall clean names -> Forall (fun r => r <> [] /\ Forall clean r) rows ->
+  exists s, write_table names rows = s ++ [newline] /\ read_table s = Some (names, rows).
+Proof.
+  intros Hn Hc Hr.
+  assert (E : exists s, write_table names rows = s ++ [newline]).
+  { unfold write_table. cbn [map concat].
+    induction rows as [|r rows IH] using rev_ind.
+    - exists (join comma names). cbn [map concat]. rewrite app_nil_r. reflexivity.
+    - exists (join comma names ++ [newline] ++ concat (map (fun line => join comma line ++ [newline]) rows) ++ join comma r).
+      rewrite map_app, concat_app. cbn [map concat]. rewrite app_nil_r, <- !app_assoc. reflexivity. }
+  destruct E as [s E]. exists s. split; [exact E|].
+  rewrite <- read_table_final_newline, <- E. apply csv_structure_roundtrip; assumption.
+Qed.
+
+(* ------------------------------------------------------------------------------------------------ *)
+(* C18, tables: a table file cut anywhere before the end of its data is never read as the same table  *)
+(* ------------------------------------------------------------------------------------------------ *)
+Lemma join_split_go sep : forall s cur, join sep (split_go sep cur s) = rev cur ++ s.
+Proof.
+  induction s as [|c r IH]; intros cur; cbn [split_go].
+  - cbn [join]. rewrite app_nil_r. reflexivity.
+  - destruct (c =? sep) eqn:E.
+    + apply N.eqb_eq in E. subst c. cbn [join]. specialize (IH []).
+      destruct (split_go sep [] r) as [|x xs] eqn:S.
+      * destruct r; cbn [split_go] in S; [discriminate|destruct (n =? sep); discriminate].
+      * rewrite IH. reflexivity.
+    + rewrite IH. cbn [rev]. rewrite <- app_assoc. reflexivity.
+Qed.
+Lemma join_split sep s : join sep (split sep s) = s.
+Proof. unfold split. rewrite join_split_go. reflexivity. Qed.
+
+Fixpoint lensum (l : list bytes) : nat := match l with [] => 0%nat | x :: r => (length x + lensum r)%nat end.
+Fixpoint cnt (sep : N) (s : bytes) : nat :=
+  match s with [] => 0%nat | c :: r => if c =? sep then cnt sep r else S (cnt sep r) end.
+
+Lemma lensum_split_go sep : forall s cur, lensum (split_go sep cur s) = (length cur + cnt sep s)%nat.
+Proof.
+  induction s as [|c r IH]; intros cur; cbn [split_go cnt].
+  - cbn [lensum]. rewrite rev_length. lia.
+  - destruct (c =? sep); [cbn [lensum]; rewrite IH, rev_length; cbn [length]; lia|rewrite IH; cbn [length]; lia].
+Qed.
+Lemma lensum_filter_nonempty l : lensum (filter nonempty l) = lensum l.
+Proof. induction l as [|x l IH]; [reflexivity|]. destruct x; cbn [filter nonempty lensum length]; lia. Qed.
+Lemma cnt_app sep a b : cnt sep (a ++ b) = (cnt sep a + cnt sep b)%nat.
+Proof. induction a as [|c a IH]; [reflexivity|]. cbn [app cnt]. destruct (c =? sep); lia. Qed.
+Lemma cnt_zero sep s : cnt sep s = 0%nat -> Forall (fun c => c = sep) s.
+Proof.
+  induction s as [|c r IH]; intros H; [constructor|]. cbn [cnt] in H. destruct (N.eqb_spec c sep) as [E|E]; [|discriminate].
+  constructor; [exact E|apply IH; exact H].
+Qed.
+
+(* the text of a written table, without its final line break, ends in a byte of its last line *)
+Lemma written_table_tail names rows : exists pre line, In line (names :: rows) /\
+  write_table names rows = (pre ++ join comma line) ++ [newline].
+Proof.
+  unfold write_table. induction rows as [|r rows _] using rev_ind.
+  - exists [], names. split; [left; reflexivity|]. cbn [map concat app]. rewrite app_nil_r. reflexivity.
+  - exists (concat (map (fun line => join comma line ++ [newline]) (names :: rows))), r. split.
+    + right. apply in_or_app. right. left. reflexivity.
+    + change (names :: rows ++ [r]) with ((names :: rows) ++ [r]). rewrite map_app, concat_app. cbn [map concat].
+      rewrite app_nil_r, app_assoc. reflexivity.
+Qed.
+
+Theorem csv_truncated_differs names rows s p :
+  names <> [] -> Forall clean names -> Forall (fun r => r <> [] /\ Forall clean r) rows ->
+  write_table names rows = s ++ [newline] -> proper_prefix p s ->
+  read_table p <> Some (names, rows).
+Proof.
+  intros Hn Hc Hr Hs [r [Hrne Hsp]] Hp.
+  assert (Hfull : read_table s = Some (names, rows)).
+  { rewrite <- read_table_final_newline, <- Hs. apply csv_structure_roundtrip; assumption. }
+  (* the non-empty lines of p and of s are the same *)
+  assert (L : filter nonempty (split newline p) = filter nonempty (split newline s)).
+  { unfold read_table in Hp, Hfull.
+    destruct (map (split comma) (filter nonempty (split newline p))) as [|n1 r1] eqn:E1; [discriminate|].
+    destruct (map (split comma) (filter nonempty (split newline s))) as [|n2 r2] eqn:E2; [discriminate|].
+    assert (E : map (split comma) (filter nonempty (split newline p)) = map (split comma) (filter nonempty (split newline s))).
+    { rewrite E1, E2. inversion Hp; inversion Hfull; subst. reflexivity. }
+    apply (f_equal (map (join comma))) in E. rewrite !map_map in E.
+    rewrite (map_ext _ (fun x => x)) in E by (intros; apply join_split).
+    rewrite (map_ext (fun x => join comma (split comma x)) (fun x => x)) in E by (intros; apply join_split).
+    rewrite !map_id in E. exact E. }
+  apply (f_equal lensum) in L. rewrite !lensum_filter_nonempty in L. unfold split in L.
+  rewrite !lensum_split_go in L. cbn [length] in L. rewrite Hsp, cnt_app in L.
+  assert (Z : cnt newline r = 0%nat) by lia. apply cnt_zero in Z.
+  (* but s ends in a byte of its last line, which is no line break *)
+  destruct (written_table_tail names rows) as [pre [line [Hin Hw]]].
+  rewrite Hs in Hw. apply app_inj_tail in Hw. destruct Hw as [Hw _].
+  assert (Hline : line <> [] /\ Forall clean line).
+  { destruct Hin as [<-|Hin]; [split; assumption|]. rewrite Forall_forall in Hr. apply Hr. exact Hin. }
+  destruct Hline as [H1 H2].
+  pose proof (join_nonempty line H1 H2) as Jne. pose proof (join_no_newline line H2) as Jnl.
+  destruct (exists_last Jne) as [j' [c Ej]].
+  destruct (exists_last Hrne) as [r' [c' Er]].
+  rewrite Hsp, Er, Ej, !app_assoc in Hw. apply app_inj_tail in Hw. destruct Hw as [_ Ecc].
+  rewrite Er in Z. apply Forall_app in Z. destruct Z as [_ Z]. inversion Z as [|? ? Zc _]; subst.
+  apply Jnl. rewrite Ej. apply in_or_app. right. left. reflexivity.
+Qed.
